@@ -80,9 +80,20 @@ def _fit(step):
             settings = (em.HourlySolarSettings if step.get("ghi") else em.HourlyNonSolarSettings)(**(settings or {}))
         m = em.HourlyModel(settings=settings).fit(data, ignore_disqualification=True)
         pred = m.predict(data, ignore_disqualification=True)
+    elif fam == "caltrack":
+        import pandas as pd
+        from opendsm.eemeter.samples import load_sample
+        from opendsm.eemeter.models.hourly_caltrack.wrapper import HourlyModel as CT
+        from opendsm.eemeter.models.hourly_caltrack.data import HourlyBaselineData as CTB, HourlyReportingData as CTR
+        meter, temp, meta = load_sample("il-electricity-cdd-hdd-hourly")
+        df = pd.concat([meter.rename(columns={"value": "observed"}), temp.rename("temperature")], axis=1).dropna()
+        base = CTB(df.iloc[: 24 * 365].copy(), is_electricity_data=True)
+        rep = CTR(df.iloc[24 * 365: 24 * 400].copy(), is_electricity_data=True)
+        m = CT().fit(base)
+        pred = m.predict(rep)
     else:
         raise ValueError(fam)
-    cols = [c for c in ("predicted", "predicted_unc") if c in pred.columns]
+    cols = [c for c in ("predicted", "predicted_unc", "predicted_uncertainty") if c in pred.columns]
     return {"json": m.to_json(), "pred": [[repr(float(v)) for v in pred[c].tolist()] for c in cols]}
 
 
@@ -137,6 +148,8 @@ def run_plan(plan, env_extra=None, timeout=900):
     env = dict(os.environ)
     env["PYTHONPATH"] = os.pathsep.join([VERIF, os.path.join(VERIF, ".overlay"), env.get("PYTHONPATH", "")])
     env.setdefault("NUMBA_CACHE_DIR", os.path.join(VERIF, ".scratch", "numba"))
+    for k in ("OMP_NUM_THREADS", "MKL_NUM_THREADS", "OPENBLAS_NUM_THREADS", "NUMBA_NUM_THREADS"):
+        env.setdefault(k, "1")        # plans run side by side: one thread each unless the plan says otherwise
     env.update(env_extra or {})
     p = subprocess.run([sys.executable, "-m", "bounded.C03_repeat", "--worker", json.dumps(plan)], cwd=VERIF, env=env, capture_output=True, text=True, timeout=timeout)
     for line in p.stdout.splitlines():
@@ -178,6 +191,7 @@ FIT = {
     "hourly.H2.seed7": {"do": "fit", "family": "hourly", "meter": "H2", "settings": {"seed": 7}},
     "hourly.H2.pv": {"do": "fit", "family": "hourly", "meter": "H2", "settings": {"seed": 3, "supplemental_time_series_columns": ["has_pv"]}},
     "hourly.H3.default.seed7": {"do": "fit", "family": "hourly", "meter": "H3", "settings": {"seed": 7}},
+    "caltrack": {"do": "fit", "family": "caltrack"},
     "hourly.H1.solar.seed5": {"do": "fit", "family": "hourly", "meter": "H1", "ghi": True, "settings": {"seed": 5}},
     "hourly.H3.explicit.seed7": {"do": "fit", "family": "hourly", "meter": "H3", "explicit": True, "settings": {"seed": 7}},
 }
@@ -206,6 +220,9 @@ def plans(tier):
     for j, sl in enumerate([[{"uncertainty_alpha": 0.2}, {"uncertainty_alpha": 0.05}], [None, {"uncertainty_alpha": 0.05}],
                             [{"uncertainty_alpha": 0.2}, None, {"uncertainty_alpha": 0.3}, None, {"uncertainty_alpha": 0.05}]]):
         P[f"warm.batch{j + 2}"] = ([{"do": "garbage", "n": 1000 * (j + 1)}, {"do": "batch", "meter": "D1", "settings_list": sl, "record": "daily.D1.alpha05"}], None)
+    # str hashing differs between processes (PYTHONHASHSEED): anything iterating a set of names in hash order shows here
+    P["hashseed.a"] = ([rec("caltrack"), rec("hourly.H1.seed7")], {"PYTHONHASHSEED": "0"})
+    P["hashseed.b"] = ([{"do": "rng", "seed": 3}, rec("hourly.H1.seed7"), rec("caltrack")], {"PYTHONHASHSEED": "12345"})
     P["threads.hourly"] = ([rec("hourly.H1.seed7"), rec("hourly.H1.seed0")], {"OMP_NUM_THREADS": "4", "MKL_NUM_THREADS": "4", "OPENBLAS_NUM_THREADS": "4"})
     if tier == "thorough":
         P["fresh.daily.default"] = ([rec("daily.D1")], None)
@@ -239,7 +256,7 @@ def run(tier="quick", seed=0):
     b = Bounded("C03", "C03.repeat", MODULE,
                 "real DailyModel / BillingModel / HourlyModel fits in worker processes: the same (meter, settings) fitted as the first act of a fresh process, after a "
                 "batch of other fits with other settings / supplemental columns / dropped models / garbage collection / global numpy+random generator use, twice in one "
-                "process, with OMP/MKL/OPENBLAS_NUM_THREADS=4 in the environment"
+                "process, with OMP/MKL/OPENBLAS_NUM_THREADS=4 in the environment, under two PYTHONHASHSEED values (also a CalTRACK hourly fit)"
                 + ("; thorough: a batch of six meters in two orders, 4 concurrent worker processes, solar model" if tier == "thorough" else "")
                 + ". Compared: sha256 of to_json() plus repr of every predicted / predicted_unc value. seeds 0, 5, 7. distinct = compared pair",
                 known_findings=load_known("C03"))
